@@ -22,11 +22,14 @@ import (
 // exit 0: every function that could be tested conforms; exit 2: CONFORMANCE-FAIL.
 func cmdConform(args []string) int {
 	repo := "/repo"
+	all := false
 	var ids []string
 	for i := 0; i < len(args); i++ {
 		if args[i] == "--repo" {
 			repo = args[i+1]
 			i++
+		} else if args[i] == "--all" {
+			all = true
 		} else {
 			ids = append(ids, args[i])
 		}
@@ -66,7 +69,7 @@ func cmdConform(args []string) int {
 	for _, k := range keys {
 		for _, fn := range P.FindFunc(k) {
 			r := VerifyFunc(P, db, fn, db.Contracts[k])
-			if r.Err != nil || r.LoopCount > 0 {
+			if r.Err != nil || (r.LoopCount > 0 && !all) {
 				skipped++
 				continue
 			}
@@ -77,7 +80,7 @@ func cmdConform(args []string) int {
 					abstract = true
 				}
 			}
-			if abstract {
+			if abstract && !all {
 				skipped++
 				continue
 			}
